@@ -327,12 +327,16 @@ async def end_to_end(kind: str, rng: Rng, n: int) -> list[dict]:
         val, doc = vals[i % len(vals)] if i < 2 * len(vals) else rng.choice(vals)
         bucket = rng.random() < 0.4
         kw = dict(queue=q, priority=prio, id_=rng.choice([None, f"id-{i}_x"]), retries=rng.choice([0, 3]),
-                  timeout=us_td(rng.choice([S, 600 * S, 12_345_678])), ttl=us_td(rng.choice([None, S, 3600 * S + 1])),
-                  args=val, use_args_bucketer=bucket, args_ttl=us_td(rng.choice([None, 60 * S])),
+                  timeout=us_td(rng.choice([S, 600 * S, 12_345_678])), ttl=us_td(rng.choice([None, S, 3600 * S + 1, 1 * S])),
+                  args=val, use_args_bucketer=bucket, args_ttl=us_td(rng.choice([None, 60 * S, 1 * S])),
                   store_result=rng.random() < 0.5, result_ttl=us_td(rng.choice([None, S, 86400 * S])),
                   deferred_by=us_td(rng.choice([None, None, S])), _connection=conn)
         if kw["deferred_by"] is not None and kw["ttl"] is not None:
             kw["ttl"] = us_td(3600 * S + 1)        # must outlive the wait for the first run
+        if kw["args_ttl"] is not None and (kw["deferred_by"] is not None or kind == "redis"):
+            # (so must the argument bucket; on Redis a key with EXAT lives until the START of the second timestamp + ttl falls
+            # in — a one-second bucket may be gone 50 ms after it was stored; DESIGN §9)
+            kw["args_ttl"] = us_td(60 * S)
         CLOCK.advance(rng.choice([0, 1, 250_000]))
         job = Job("some_job" if i % 2 else "Other-job_2", **kw)
         try:
